@@ -20,6 +20,9 @@ def run_call(c, backend=None, graph=False, arrays=None, timeout=30):
     try:
         r = common.with_alarm(timeout, fn, c.desc, *args, **kw)
     except BaseException as e:  # noqa: BLE001
+        if common.classify_exc(e) == "TIMEOUT" and timeout < 200:
+            # a loaded machine is not a hang: once more, alone, with a generous limit
+            return run_call(c, backend, graph, arrays, timeout=300)
         return ("exc", common.classify_exc(e), common.exc_site(e), str(e)[:300])
     if graph:
         return ("graph", str(r))
